@@ -458,7 +458,33 @@ def run(P, tier="quick"):
                 cond = lp.kids[2]
                 if cond is not None and CN.path(cond) == "($i<$0->vd_frequencies)":
                     okl = True
-            if okz and okl:
+            # the copy is unconditional apart from the mode flag: any other enclosing condition (a conversion group, the
+            # parameter type) makes some conversions drop the source's impedances
+            extra = None
+            for call_ in (zs[0], fs[0]):
+                for a in call_.ancestors():
+                    if a.k != "IfStmt" or not then.is_ancestor_of(a):
+                        continue
+                    chain = [a]
+                    # an `else if` hangs below the else-branch of another IfStmt: that condition guards it as well
+                    par = a.parent
+                    while par is not None and par.k == "IfStmt" and then.is_ancestor_of(par):
+                        chain.append(par)
+                        par = par.parent
+                    for q in chain:
+                        c0 = [k for k in q.kids if k is not None][0].strip()
+                        neg_ = c0.k == "UnaryOperator" and c0.op == "!"
+                        inner_ = CN.path(c0.kids[0]) if neg_ else CN.path(c0)
+                        if inner_ == "(INT($0)->vdi_flags&%d)" % PERF:
+                            continue
+                        if c0.is_ancestor_of(call_) or c0.id == call_.id:
+                            continue
+                        extra = (q, c0)
+            if extra is not None:
+                R.violated(Finding("R28", PROPS, FILE, f.name, "setup-z0-mode",
+                                   "the copy of the reference impedances to the destination is conditional on `%s`: conversions for "
+                                   "which it is false leave the destination at 50 ohm" % extra[1].text()[:50], extra[0].line))
+            elif okz and okl:
                 R.ok("R28|setup-z0-mode")
             else:
                 R.violated(Finding("R28", PROPS, FILE, f.name, "setup-z0-mode", "z0 copy must use set_z0_vector when "
